@@ -196,6 +196,20 @@ func (c *Cmd) Start() error {
 		flags |= 2
 	}
 	argv := append([]string{c.Path}, c.Args[min(1, len(c.Args)):]...)
+	if c.Dir != "" && !strings.HasPrefix(c.Path, "/") && strings.Contains(c.Path, "/") {
+		// like os/exec: a relative program path is resolved against Cmd.Dir. The simulated tools
+		// live where a lookup from the working directory found them, so from any other directory
+		// that relative path names nothing.
+		dir := c.Dir
+		if !strings.HasPrefix(dir, "/") {
+			dir = kern.Cwd() + "/" + dir
+		}
+		if kern.CleanPath(dir) != kern.CleanPath(kern.Cwd()) {
+			kern.Call(kern.Req{Op: kern.OpNote, S: "exec: " + c.Path + " not found relative to " + c.Dir})
+			c.finished = true
+			return &fs.PathError{Op: "fork/exec", Path: c.Path, Err: syscall.ENOENT}
+		}
+	}
 	r := kern.Call(kern.Req{Op: kern.OpProcStart, Strs: argv, Data: stdin, A: flags})
 	c.pid = int(r.A)
 	if r.Status != 0 {
